@@ -86,6 +86,8 @@ struct IlHarness : HarnessBase {
 			if(L(a).back() != (r.empty() ? nullptr : &node(r.back()))) fail("back", "back() differs from the reference");
 			std::vector<int> fw; int guard = 0;
 			for(auto it = L(a).begin(); it != L(a).end(); ++it) { if(++guard > n + 1) fail("cycle", "forward iteration does not terminate"); fw.push_back((*it)->id); }
+			// the same walk with the postfix increment: it++ yields the old position
+			{ std::vector<int> pf; size_t g2 = 0; for(auto it = L(a).begin(); it != L(a).end();) { if(++g2 > n + 1) fail("cycle", "postfix iteration does not terminate"); auto old = it++; pf.push_back((*old)->id); if(old == it) fail("postfix-increment", "it++ did not advance"); } if(pf != fw) fail("postfix-increment", "walking with it++ differs from walking with ++it"); }
 			if(fw != r) fail("forward", "forward iteration differs from the reference");
 			std::vector<int> bw; guard = 0;
 			for(LNode *p = L(a).back(); p; p = p->hook.previous) { if(++guard > n + 1) fail("cycle", "backward chain does not terminate"); bw.push_back(p->id); }
